@@ -121,6 +121,36 @@ func canonicals() []canonical {
 			}
 		}
 	}
+	// long lists (well-formed): element counts around 8, 16 and 32 in every client-sized list. Only the message ID
+	// subtree is mutated (the shapes are covered by the short canonicals); what matters here is the count.
+	for _, n := range []int{8, 9, 16, 17, 33} {
+		var names, vals [][]byte
+		var attrs []sber.Attr
+		var changes []sber.Change
+		var ctls []*sber.Node
+		for i := 0; i < n; i++ {
+			names = append(names, []byte(fmt.Sprintf("attr%d", i)))
+			vals = append(vals, []byte(fmt.Sprintf("value-%d", i)))
+		}
+		for i := 0; i < n; i++ {
+			attrs = append(attrs, sber.Attr{Type: names[i], Vals: vals})
+			changes = append(changes, sber.Change{Op: int64(i % 3), Attr: sber.Attr{Type: names[i], Vals: vals}})
+			ctls = append(ctls, ctlTree("generic", i%3))
+		}
+		long := map[string]*sber.Node{
+			"search": sber.Search{Base: []byte("dc=example"), Scope: 2, Filter: sber.PresentFilter("objectClass"), Attrs: names}.Node(),
+			"add":    sber.AddRequest([]byte("cn=long,dc=example"), attrs),
+			"modify": sber.ModifyRequest([]byte("cn=long,dc=example"), changes),
+			"bind":   sber.BindRequest(3, []byte("cn=alice,dc=example"), []byte("secret")),
+		}
+		for _, on := range []string{"search", "add", "modify", "bind"} {
+			msg := sber.Seq(sber.Int(int64(100+n)), long[on])
+			if on == "bind" || on == "search" {
+				msg.Children = append(msg.Children, sber.Cons(sber.Context, 0, ctls...))
+			}
+			out = append(out, canonical{Name: fmt.Sprintf("%s+lists-of-%d", on, n), Tree: msg, Scope: []int{0}})
+		}
+	}
 	for _, on := range opNames {
 		for ci, cv := range ctlVariants {
 			msg := sber.Seq(sber.Int(int64(7+ci)), ops[on]())
